@@ -1559,9 +1559,9 @@ pub fn run(a: &Args) -> i32 {
     let (ndb, per_db, nindexq, deadline) = if cfg!(miri) {
         (2, 10, 3, 1.0e9)
     } else if quick {
-        (60, 60, 8, 48.0)
+        (40, 60, 8, 48.0)
     } else {
-        (1500, 60, 8, 540.0)
+        (1000, 60, 8, 540.0)
     };
     let scratch = Scratch::new("c19");
     let mut st = Stats::default();
